@@ -15,6 +15,12 @@ import (
 type reader struct{}
 
 func (reader) Read(b []byte) (int, error) {
+	if len(b) == 1 && simrt.CurG() != nil {
+		// crypto/internal/randutil.MaybeReadByte reads one byte or not, at
+		// random: such reads must not advance the deterministic stream.
+		b[0] = 0x5a
+		return 1, nil
+	}
 	w, ok := simrt.NextRand()
 	if !ok {
 		return crand.Read(b)
